@@ -35,7 +35,13 @@ class Facts:
         self.adts = {a["path"]: a for a in data["adts"]}
         self.statics = data.get("statics", [])
 
+    def activate(self):
+        """make this fact base the default context of hir.fold (table helpers) - called when a check starts using it"""
+        hir_mod.DEFAULT_FACTS[0] = self
+        return self
+
     def fn(self, path):
+        hir_mod.DEFAULT_FACTS[0] = self
         f = self.fns.get(path)
         if f is None:
             raise AnchorMissing("function `%s` not found in crate" % path)
